@@ -725,12 +725,29 @@ impl HttpContext {
                         // header used by Envoy/HAProxy/most LBs. Preserve the
                         // client-supplied value verbatim — overwriting it
                         // breaks end-to-end request tracing.
-                        has_x_request_id = true;
-                        self.x_request_id = header
-                            .val
-                            .data_opt(buf)
-                            .and_then(|data| from_utf8(data).ok())
-                            .map(ToOwned::to_owned);
+                        //
+                        // Only the first occurrence is forwarded: a second
+                        // `X-Request-Id` would leave the backend with two
+                        // request ids (and the access log with a value that is
+                        // not the one every backend picks), so duplicates are
+                        // elided and the recorded value is the forwarded one.
+                        if has_x_request_id {
+                            header.elide();
+                        } else {
+                            has_x_request_id = true;
+                            self.x_request_id = header
+                                .val
+                                .data_opt(buf)
+                                .and_then(|data| from_utf8(data).ok())
+                                .map(ToOwned::to_owned);
+                        }
+                    } else if compare_no_case(key, self.sozu_id_header.as_bytes()) {
+                        // The correlation header (default `Sozu-Id`) is
+                        // proxy-owned: exactly one, carrying this request's id,
+                        // is appended after this loop. A client-supplied copy
+                        // would reach the backend next to the genuine one
+                        // (spoofable correlation id), so it is elided.
+                        header.elide();
                     } else {
                         #[cfg(feature = "opentelemetry")]
                         if compare_no_case(key, b"traceparent") {
